@@ -856,6 +856,17 @@ class GenericClient:
         else:
             start, stop = initSyncFound[-1]
 
+        previous = (self.__cache.initstartoffset, self.__cache.initstopoffset)
+        if (
+            self.__cache.nextoffset is not None
+            and previous in initSyncFound
+            and previous[0] < self.__cache.nextoffset
+        ):
+            # The processing of a sequence has already begun (client stopped in the
+            # middle of it): go on with this one, even if a newer one exists now.
+            # Switching would process again objects that were already added
+            start, stop = previous
+
         if self.__cache.nextoffset is None or self.__cache.nextoffset < start:
             self.__cache.nextoffset = start
 
